@@ -13,10 +13,12 @@ for f in sorted(glob.glob("/verif/seeded/C*-*/meta.json")):
     t = m["on_repo_target_check"]
     others = ", ".join(m.get("other_checks_that_catch_it_scratch_scale_0_3", []))
     cls = ", ".join(f"`{c}`" for c in t["violation_classes"][:2])
-    ok = "caught" if m["caught_by_target_check"] else "**MISSED**"
+    ok = "caught" if m["caught_by_target_check"] else "**NOT CAUGHT**"
     first = m.get("caught_at_first_evaluation_before_strengthening")
-    if first is False:
+    if first is False and m["caught_by_target_check"]:
         ok += " (missed at first evaluation, caught after the strengthening of §11)"
+    if m.get("note"):
+        ok += " - " + m["note"]
     tgt = "" if m.get("written_for_property", m["breaks_property"]) == m["breaks_property"] else f" (run against {m['breaks_property']})"
     rows.append(f"| {m['id']}{tgt} | {notes} | {ok}: {cls} | {others} |")
 print("| seeded change | what it is (first line of the author's notes) | target check `./check <id> quick` on /repo + patch | other checks that also catch it |")
